@@ -86,6 +86,8 @@ type FnCtx struct {
 	globalSeen map[string]bool
 	anchorsDone map[string]bool
 	ghosts   map[string]Val
+	subSeen  map[string]bool
+	localSubs map[string][]string
 	exitBound map[int]bool
 	ghostAt  map[string]*ssa.BasicBlock
 	uncontracted map[string]bool
@@ -201,6 +203,7 @@ type varRef struct {
 	idx   int
 	v     ssa.Value
 	addr  bool
+	obj   types.Object
 }
 
 func (fc *FnCtx) fresh(prefix, sort string) string {
@@ -411,7 +414,24 @@ func (fc *FnCtx) subRef(st types.Type, i int, ref string) string {
 	}
 	fn := mangle("sub." + typeName(st) + "." + f.Name())
 	fc.declareFun(fn, "(Int) Int")
-	return fmt.Sprintf("(%s %s)", fn, ref)
+	term := fmt.Sprintf("(%s %s)", fn, ref)
+	if !fc.subSeen[term] {
+		if fc.subSeen == nil {
+			fc.subSeen = map[string]bool{}
+		}
+		fc.subSeen[term] = true
+		// a part of an object is as old as the object; parts of this function's own allocations are remembered
+		// so that addresses found in the heap can be told apart from them while the allocation is private
+		fc.declare("allocBase", SInt)
+		fc.assertGlobal(fmt.Sprintf("(=> (not (= %s 0)) (and (not (= %s 0)) (= (>= %s allocBase) (>= %s allocBase))))", ref, term, term, ref))
+		if fc.isAllocConst(ref) {
+			if fc.localSubs == nil {
+				fc.localSubs = map[string][]string{}
+			}
+			fc.localSubs[ref] = append(fc.localSubs[ref], term)
+		}
+	}
+	return term
 }
 
 func (fc *FnCtx) storeLoc(h *HeapState, l Loc, v Val) {
@@ -1000,7 +1020,7 @@ func (fc *FnCtx) collectVarRefs() {
 		for i, in := range b.Instrs {
 			if d, ok := in.(*ssa.DebugRef); ok {
 				if obj := d.Object(); obj != nil {
-					fc.varRefs[obj.Name()] = append(fc.varRefs[obj.Name()], varRef{b, i, d.X, d.IsAddr})
+					fc.varRefs[obj.Name()] = append(fc.varRefs[obj.Name()], varRef{b, i, d.X, d.IsAddr, obj})
 				}
 			}
 		}
